@@ -61,25 +61,31 @@ func register(r *mc.Registry) {
 		"the reference (plain loops over slices in the harness) is the meaning of 'the corresponding eager fp.Seq/slice computation'",
 		"need(stage, input, demand) = the shortest input prefix that fixes the demand's answers for every continuation from {0,1,2, wildcard-true, wildcard-false}^{0..2} and constant runs up to length 8, computed by brute force with the reference; a wildcard is a fresh value on which the stage's own predicate-like parameter answers either way, so no parameter is constant; the bound is pulls <= need+2 per stage, against the demand its consumer actually placed on it; Drop(n)'s n skipped elements count as needed",
 		"unbounded sources: a demand is run only if the first 24 elements determine its answers for every continuation (otherwise the reference itself needs the whole source: excluded, counted in the census); it must then be answered with at most 36 pulls",
-		"non-termination is decided by a budget of 4000 callback invocations/pulls/probes per run on inputs of length <= 5",
+		"non-termination is decided by a budget of 4000 (lists: 6000) callback invocations/pulls/probes per run on inputs of length <= 5",
+		"list demand = the cells whose emptiness/head/tail the consumer asked for; a memoised list evaluates each cell at most once = generator(i) of list.Generate/GenerateFrom is invoked at most once per index over the demand and a complete re-traversal (and an iterator-backed list yields the same values again)",
+		"on finite sources the direct (unwrapped) multi-stage pipeline is run for the largest demand only: the calls of every smaller demand are a prefix of its calls",
 		"Min/Max over ints: which of several equal minimal elements is returned is not observable and not demanded",
 	}
 	r.Extra["bounds"] = map[string]any{
 		"alphabet": []int{0, 1, 2}, "max_input_len": maxLen, "max_pipeline": map[bool]int{false: 2, true: 3}[r.Thorough()],
-		"predicates":         names(preds, func(p pred) string { return p.name }),
-		"map_functions":      names(mapfns, func(p mapfn) string { return p.name }),
-		"flatmap_functions":  names(flatfns, func(p flatfn) string { return p.name }),
-		"filtermap_functions": names(optfns, func(p optfn) string { return p.name }),
-		"scan_functions":     names(scanfns, func(p foldfn) string { return p.name }),
-		"take_drop_counts":   counts,
-		"iterator_stage_catalogue": names(iterKinds, func(k ikind) string { return k.name }),
+		"predicates":                  names(preds, func(p pred) string { return p.name }),
+		"map_functions":               names(mapfns, func(p mapfn) string { return p.name }),
+		"flatmap_functions":           names(flatfns, func(p flatfn) string { return p.name }),
+		"filtermap_functions":         names(optfns, func(p optfn) string { return p.name }),
+		"scan_functions":              names(scanfns, func(p foldfn) string { return p.name }),
+		"take_drop_counts":            counts,
+		"iterator_stage_catalogue":    names(iterKinds, func(k ikind) string { return k.name }),
 		"iterator_terminal_catalogue": names(iterTermKinds, func(k itkind) string { return k.name }),
-		"list_stage_catalogue": names(listKinds, func(k lkind) string { return k.name }),
-		"list_terminal_catalogue": names(listTermKinds, func(k ltkind) string { return k.name }),
-		"finite_sources":     names(finiteSources, func(k isrcKind) string { return k.name }),
-		"unbounded_sources":  names(unboundedSources, func(k isrcKind) string { return k.name }),
-		"pipelines_of_3":     "thorough only, inputs up to length 3, first two entries of every parameter alphabet",
-		"budget_per_run":     4000, "unbounded_horizon": horizon, "unbounded_decided_at": decidedAt, "unbounded_pull_limit": pullLimit,
+		"list_stage_catalogue":        names(listKinds, func(k lkind) string { return k.name }),
+		"list_terminal_catalogue":     names(listTermKinds, func(k ltkind) string { return k.name }),
+		"finite_sources":              names(finiteSources, func(k isrcKind) string { return k.name }),
+		"unbounded_sources":           names(unboundedSources, func(k isrcKind) string { return k.name }),
+		"finite_list_sources":         names(finiteListSources, func(k lsrcKind) string { return k.name }),
+		"unbounded_list_sources":      names(unboundedListSources, func(k lsrcKind) string { return k.name }),
+		"list_demand_patterns":        patNames,
+		"terminals_after_one_stage":   "quick: inputs up to length 3; thorough: the full input bound",
+		"pipelines_of_3":              "thorough only, inputs up to length 3, first two entries of every parameter alphabet",
+		"budget_per_run":              4000, "unbounded_horizon": horizon, "unbounded_decided_at": decidedAt, "unbounded_pull_limit": pullLimit,
 	}
 	r.Extra["uncovered"] = []string{
 		"iterator.FoldFuture / list.FoldFuture / seq.FoldFuture: results are futures completed on executor goroutines (C06's subject), not a sequential combinator",
